@@ -251,23 +251,41 @@ def p3_delete_frees(prog):
         r.viol('P3', 'missing/World::remove', '-', 'anchor not found')
     else:
         f = cands[0]
-        body = f.body
-        rm = [b for b, t in body.calls(lambda c: c['name'] == 'remove_row_unchecked')]
-        fr = [(b, t) for b, t in body.calls(lambda c: c['name'] == 'free_unchecked')]
-        r.inst('%s: %d remove_row, %d free' % (f.path, len(rm), len(fr)))
-        if not rm or not fr:
-            r.viol('P3', f.path + '/missing-call', f.loc(), 'World::remove must call both remove_row_unchecked and free_unchecked')
-        else:
-            for b in rm:
-                if not body.must_pass(b, [x for x, _ in fr], body.return_blocks()) or any(x == b for x, _ in fr):
-                    r.viol('P3', f.path + '/row-removed-not-freed', f.loc(), 'a path removes the row without freeing the identifier')
-            for b, t in fr:
-                if not any(body.dominates(x, b) or body.dominates(b, x) for x in rm):
-                    r.viol('P3', f.path + '/freed-not-removed', f.loc(t['ln']), 'identifier freed on a path that does not remove the row')
-                # freed identifier is the parameter
-                a = receiver_name(prog, body, t['args'][1])
-                if a != 'entity_identifier':
-                    r.viol('P3', f.path + '/frees-other', f.loc(t['ln']), 'free_unchecked is not applied to the removed identifier (got %s)' % a)
+        E = pathsem.analyse(prog, f)
+        rets = [p for p in E.paths if p.ended == 'return']
+        S = pathsem.strip_refs
+        idp = ('p', 2, f.body.local_name(2) or 'entity_identifier')
+        n_rm = n_fr = 0
+        rep = set()
+
+        def once(k, ln, msg, f=f, rep=rep):
+            if k not in rep:
+                rep.add(k)
+                r.viol('P3', f.path + '/' + k, f.loc(ln), msg)
+        if E.truncated or not rets:
+            once('missing-call', None, 'World::remove not analysable')
+        for p in rets:
+            rm = p.calls(lambda e: e['name'] == 'remove_row_unchecked')
+            fr = p.calls(lambda e: e['name'] == 'free_unchecked')
+            n_rm += len(rm)
+            n_fr += len(fr)
+            if rm and not fr:
+                once('row-removed-not-freed', rm[0]['ln'], 'a path removes the row without freeing the identifier')
+            if fr and not rm:
+                once('freed-not-removed', fr[0]['ln'], 'identifier freed on a path that does not remove the row')
+            if len(rm) > 1 or len(fr) > 1:
+                once('missing-call', None, 'a path removes or frees more than once')
+            for e in fr:
+                if S(e['vals'][1]) != idp:
+                    once('frees-other', e['ln'], 'free_unchecked is not applied to the removed identifier (got %s)' % pathsem.tstr(e['vals'][1]))
+            for e in rm:
+                # the row removed is the one the allocator has on record for this identifier
+                looks = [g for g in p.calls(lambda g: g['name'] == 'get' and 'allocator' in g['path'].lower() and g['i'] < e['i']) if S(g['vals'][1]) == idp and p.lookup(('discr', g['ret'])) == 1]
+                if not looks or not pathsem.mentions(e['args'][1], lambda t: t == looks[0]['ret']):
+                    once('removes-other-row', e['ln'], 'the row removed is not the location the allocator holds for this identifier')
+        r.inst('%s: %d remove_row, %d free' % (f.path, n_rm, n_fr))
+        if not n_rm or not n_fr:
+            once('missing-call', None, 'World::remove must call both remove_row_unchecked and free_unchecked')
     # (b) Archetype::clear frees each identifier, before length = 0
     for f in prog.fns.values():
         if f.path == 'archetype::Archetype::<R>::clear':
